@@ -7,9 +7,6 @@ import regen as regen_mod
 from common import Driver, f2b, b2f, close, sparse_to_dict
 
 
-def regen(ctx):
-    regen_mod.regen(ctx)
-
 
 def sparse_pair(rng, name, dim=None):
     dim = dim or int(rng.choice([1, 2, 3, 5, 8, 16, 40]))
